@@ -472,6 +472,11 @@ pub struct ExploreCfg {
     /// replay one in `replay_every` passing schedules and compare outcome + trace
     pub replay_every: usize,
     pub stop_after_violations: usize,
+    /// delay bounding instead of preemption bounding: *every* departure from the default
+    /// scheduler (keep running the current thread, else the lowest enabled id) costs 1, also at
+    /// points where the current thread is blocked or finished.  Polynomial in the number of
+    /// decisions, where preemption bounding explodes with the number of blocking events.
+    pub delay_bounded: bool,
 }
 impl Default for ExploreCfg {
     fn default() -> Self {
@@ -482,6 +487,7 @@ impl Default for ExploreCfg {
             horizon: DEFAULT_HORIZON,
             replay_every: 64,
             stop_after_violations: 2,
+            delay_bounded: false,
         }
     }
 }
@@ -546,7 +552,7 @@ where
         for (i, d) in r.trace.iter().enumerate() {
             if i >= prefix.len() {
                 for alt in 1..d.n {
-                    let cost = used + if d.cur_enabled && !d.env { 1 } else { 0 };
+                    let cost = used + if !d.env && (d.cur_enabled || cfg.delay_bounded) { 1 } else { 0 };
                     if cost > cfg.bound {
                         continue;
                     }
@@ -555,7 +561,7 @@ where
                     stack.push(p);
                 }
             }
-            if d.cur_enabled && !d.env && d.chosen != 0 {
+            if !d.env && d.chosen != 0 && (d.cur_enabled || cfg.delay_bounded) {
                 used += 1;
             }
         }
